@@ -347,7 +347,14 @@ impl Distrib for UnitCircle {
     fn sample(&self, rng: &mut DefaultRng) -> Vec2 {
         let d = Uniform([-1.0; 2]..[1.0; 2]);
         // Normalization preserves uniformity
-        Vec2::from(d.sample(rng)).normalize()
+        loop {
+            let v = Vec2::from(d.sample(rng));
+            // The zero vector has no direction: draw again (2^18 of the
+            // 2^64 generator states yield it)
+            if v.len_sqr() != 0.0 {
+                return v.normalize();
+            }
+        }
     }
 }
 
